@@ -10,3 +10,6 @@ import Glas.Props.C02Marks
 #print axioms Glas.Props.C02Marks.mcheck_sound
 #print axioms Glas.Props.C02Marks.C02_marks
 #print axioms Glas.Props.C02Marks.C02_total
+#print axioms Glas.Props.C02Marks.C02_result_stable
+#print axioms Glas.Props.C02Marks.modelFuel_ge_bound
+#print axioms Glas.Props.C02Marks.driver_fuel_canonical
